@@ -95,13 +95,14 @@ static hashcode_type any_mask(void) { hashcode_type m = nondet_size_t(); __CPROV
 #define ATOMIC_DEC(f) (g_size_dec++)
 static hashcode_type STUB_hash(key_type k) { return nondet_size_t(); }
 static bool STUB_equal(key_type k, node_base *n) { return nondet_bool(); }
-static bool STUB_check_rehashing_collision(struct chm *self, hashcode_type h, hashcode_type m_old, hashcode_type m) { return nondet_bool(); }
+unsigned g_collision_tenure, g_rel_tenure;   /* the tenure in which a mask race WITH a rehashing collision was detected: the key now lives in another bucket */
+static bool STUB_check_rehashing_collision(struct chm *self, hashcode_type h, hashcode_type m_old, hashcode_type m) { bool r = nondet_bool(); if (r) g_collision_tenure = g_tenure; return r; }
 static void BA_ctor(struct bucket_accessor *b, struct chm *self, hashcode_type h, bool writer) {
     __CPROVER_assert(g_b_mode == 0, "C10.erase: one bucket lock at a time");
     b->my_b = &BKT; g_b_mode = (writer || nondet_bool()) ? 2 : 1;   /* a bucket that had to be rehashed is returned write-locked */
     g_tenure++; havoc_list();
 }
-static void BA_dtor(struct bucket_accessor *b) { __CPROVER_assert(g_b_mode != 0, "C10.erase: the bucket lock is released once"); g_b_mode = 0; }
+static void BA_dtor(struct bucket_accessor *b) { __CPROVER_assert(g_b_mode != 0, "C10.erase: the bucket lock is released once"); g_b_mode = 0; g_rel_tenure = g_tenure; }
 static hbucket *BA_bucket(struct bucket_accessor *b) { return b->my_b; }
 static bool BA_is_writer(struct bucket_accessor *b) { return g_b_mode == 2; }
 static bool BA_upgrade_to_writer(struct bucket_accessor *b) {
@@ -126,11 +127,11 @@ static void ACC_release(struct const_accessor *a) { if (a->my_node) { g_acc_rele
 static bool ACC_is_writer(struct const_accessor *a) { return a->writer; }
 static bool ACC_upgrade_to_writer(struct const_accessor *a) { a->writer = true; return nondet_bool(); }   /* returns once this thread is the only holder (C08) */
 #define CUT_restart() do { __CPROVER_assert(g_b_mode == 0 && g_unlinks == 0 && g_deleted == 0 && g_size_dec == 0 && g_elem_locks == 0, "C10.erase: a restart begins from the clean state the entry path explores (no lock, nothing unlinked)"); __CPROVER_assume(0); } while (0)
-#define CUT_search(b) do { __CPROVER_assert(g_b_mode != 0 && g_unlinks == 0 && g_deleted == 0 && g_size_dec == 0 && g_elem_locks == 0, "C10.erase: a re-search begins with the bucket locked and nothing unlinked"); __CPROVER_assume(0); } while (0)
+#define CUT_search(b) do { __CPROVER_assert(g_collision_tenure != g_tenure, "C10.erase: after a mask race with a rehashing collision the key lives in another bucket: the search starts over from the bucket selection, it does not re-walk the bucket that is locked"); __CPROVER_assert(g_b_mode != 0 && g_unlinks == 0 && g_deleted == 0 && g_size_dec == 0 && g_elem_locks == 0, "C10.erase: a re-search begins with the bucket locked and nothing unlinked"); __CPROVER_assume(0); } while (0)
 #define LOOP_erase_1 __CPROVER_assigns(prev, erase_node) __CPROVER_loop_invariant((erase_node == NULL || IN_POOL(erase_node)) && (prev == NULL ? erase_node == BKT.node_list : (IN_POOL(prev) && prev->next == erase_node)))
 #define LOOP_excl_2 __CPROVER_assigns(prev, curr) __CPROVER_loop_invariant((curr == NULL || IN_POOL(curr)) && (prev == NULL ? curr == BKT.node_list : (IN_POOL(prev) && prev->next == curr)))
 #include "erase.inc"
-static void einit(void) { g_b_mode = 0; g_tenure = nondet_unsigned(); __CPROVER_assume(g_tenure < 1000); g_search_tenure = 0; g_unlinked = NULL; g_unlinks = g_deleted = g_elem_locks = g_size_dec = 0; g_acc_released = false; }
+static void einit(void) { g_b_mode = 0; g_tenure = nondet_unsigned(); __CPROVER_assume(g_tenure < 1000); g_search_tenure = 0; g_unlinked = NULL; g_unlinks = g_deleted = g_elem_locks = g_size_dec = 0; g_acc_released = false; g_collision_tenure = ~0u; g_rel_tenure = 0; }
 void h_erase(void) {
     struct chm m; einit();
     bool r = internal_erase(&m, nondet_int());
@@ -139,8 +140,10 @@ void h_erase(void) {
         OBLIGATION(g_unlinks == 1 && g_deleted == 1 && g_size_dec == 1, "C10.erase: a successful erase unlinks, counts and destroys exactly one node");
         OBLIGATION(g_elem_locks == 1 && g_elem_n == g_unlinked && g_elem_w, "C10.erase: between unlinking and destroying the element its WRITER lock is taken: every accessor and const_accessor still pointing to it has been released, and none can be attached any more");
         OBLIGATION(g_elem_mode_at_lock == 0, "C10.erase: the element lock is waited for without holding the bucket lock");
-    } else
+    } else {
         OBLIGATION(g_unlinks == 0 && g_deleted == 0 && g_size_dec == 0, "C10.erase: a failed erase changes nothing");
+        OBLIGATION(g_collision_tenure != g_rel_tenure, "C10.erase: 'not found' is reported only from a bucket for which no rehashing collision was detected while it was locked (a present key is not missed because the table grew)");
+    }
     VACUITY_END();
 }
 void h_exclude(void) {
